@@ -108,10 +108,14 @@ macro_rules! both_orders {
 }
 
 fn universe(tier: &str) -> Vec<Vec<u8>> {
-    let alpha = [0x00u8, b'a', b'b', 0xff];
+    // 00 and ff (ordering extremes), two ASCII letters, and the two bytes of a two-byte UTF-8 scalar
+    // ("\u{e9}" = c3 a9): alone or in the wrong order they are invalid UTF-8, together they are a
+    // non-ASCII str, so the str / String rows see non-ASCII text and the byte rows see non-UTF-8 data
+    let alpha = [0x00u8, b'a', b'b', 0xc3, 0xa9, 0xff];
+    let maxl = if tier == "thorough" { 4 } else { 3 };
     let mut v: Vec<Vec<u8>> = vec![vec![]];
     let mut level: Vec<Vec<u8>> = vec![vec![]];
-    for _ in 0..3 {
+    for _ in 0..maxl {
         let mut next = vec![];
         for s in &level {
             for &c in &alpha {
@@ -123,30 +127,25 @@ fn universe(tier: &str) -> Vec<Vec<u8>> {
         v.extend(next.iter().cloned());
         level = next;
     }
-    if tier == "thorough" {
-        // prefix / extension families up to length 8 (incl. non-UTF-8)
-        for base in [&b"abababab"[..], &b"\x00\x00\x00\x00\x00\x00\x00\x00"[..], &b"ab\xffab\xffab"[..], &b"\xff\xff\xff\xff\xff\xff\xff\xff"[..]] {
-            for l in 4..=8 {
-                v.push(base[..l].to_vec());
-            }
-        }
-    } else {
-        for base in [&b"abababab"[..], &b"ab\xffab\xffab"[..]] {
-            for l in [4usize, 7, 8] {
-                v.push(base[..l].to_vec());
-            }
+    // prefix / extension families up to length 9 (incl. non-UTF-8)
+    for base in [&b"ababababa"[..], &b"\x00\x00\x00\x00\x00\x00\x00\x00\x00"[..], &b"ab\xffab\xffab\xff"[..], &b"\xff\xff\xff\xff\xff\xff\xff\xff\xff"[..], &b"a\xc3\xa9a\xc3\xa9a\xc3\xa9"[..]] {
+        for l in 4..=9 {
+            v.push(base[..l].to_vec());
         }
     }
     v
 }
 
-pub fn run_c14(tier: &str, parity_odd: bool, rep: &mut Report) {
+pub fn run_c14(tier: &str, parity_odd: bool, shard: usize, nshards: usize, rep: &mut Report) {
     let uni = universe(tier);
     let full_reps = tier == "thorough";
     let mut cx = Ctx { rep, rows: BTreeSet::new(), outcomes: BTreeSet::new(), pair: String::new() };
     let mut pairs = 0u64;
     let mut rep_names: BTreeSet<&'static str> = BTreeSet::new();
     for (ix, x) in uni.iter().enumerate() {
+        if ix % nshards != shard {
+            continue;
+        }
         for (iy, y) in uni.iter().enumerate() {
             let _ = (ix, iy);
             pairs += 1;
@@ -335,7 +334,7 @@ pub fn run_c14(tier: &str, parity_odd: bool, rep: &mut Report) {
     let mut long_pairs = 0u64;
     {
         let lens: &[usize] = if tier == "thorough" { &[255, 256, 1024, 4096, 16384, 16385, 65536, 70001] } else { &[256, 4097, 16385, 70001] };
-        for &n in lens {
+        for &n in lens.iter().filter(|_| shard == 0) {
             let x: Vec<u8> = (0..n).map(|i| (i * 31 + 7) as u8).collect();
             // y differs from x only in its last byte / is a proper prefix / is equal
             let mut y_last = x.clone();
@@ -389,7 +388,7 @@ pub fn run_c14(tier: &str, parity_odd: bool, rep: &mut Report) {
         }
     }
     // ---- BytesMut handles carved from one allocation: an empty handle at the start / end of a non-empty one
-    for x in uni.iter().filter(|x| !x.is_empty()) {
+    for x in uni.iter().filter(|x| !x.is_empty() && shard == 0) {
         oracle::begin_execution(parity_odd);
         cx.pair = format!("x={:02x?} vs empty handles carved from the same buffer", x);
         let (e_front, full, e_back, head, rest) = oracle::subject(|| {
@@ -538,20 +537,10 @@ fn c15_universe(tier: &str) -> Vec<Vec<u8>> {
     for a in 0..=255u8 {
         v.push(vec![a]);
     }
-    let interesting: Vec<u8> = vec![0x00, b'0', b'9', b'"', b'\\', b'\n', b'\r', b'\t', 0x1f, 0x20, 0x7e, 0x7f, 0x80, 0xff, b'x', b'a', b'\''];
-    if tier == "thorough" {
-        for a in 0..=255u8 {
-            for b in 0..=255u8 {
-                v.push(vec![a, b]);
-            }
-        }
-    } else {
-        // quick: every byte against every escape-relevant neighbour, in both positions
-        for a in 0..=255u8 {
-            for &b in &interesting {
-                v.push(vec![a, b]);
-                v.push(vec![b, a]);
-            }
+    // all 65 536 byte pairs (escape adjacency)
+    for a in 0..=255u8 {
+        for b in 0..=255u8 {
+            v.push(vec![a, b]);
         }
     }
     // longer strings: every length up to 80 and a spread beyond (formatters that work in
@@ -563,9 +552,22 @@ fn c15_universe(tier: &str) -> Vec<Vec<u8>> {
         if n <= 80 || n == 16385 || tier == "thorough" {
             v.push((0..n).map(|i| [0u8, b'"', b'\\', b'\n', 0x7f, 0xff, b'9', b'a'][i % 8]).collect());
         }
+        // printable-only strings with one escape-relevant character at the start / middle / end
+        // (fast paths keyed on "everything is printable")
+        if n <= 80 {
+            for &e in &[b'"', b'\\', b'\'', b'\n', 0u8, 0x7f, 0x80] {
+                for pos in [0, n / 2, n - 1] {
+                    let mut s: Vec<u8> = (0..n).map(|i| b'a' + (i % 26) as u8).collect();
+                    s[pos] = e;
+                    v.push(s);
+                }
+            }
+            v.push((0..n).map(|i| b' ' + (i % 95) as u8).collect());
+        }
     }
+    // all strings of length 3..=maxl over the escape-relevant alphabet
     let al = [0x00u8, b'0', b'"', b'\\', b'\n', 0x7f, 0x80, b'x'];
-    let maxl = if tier == "thorough" { 4 } else { 3 };
+    let maxl = if tier == "thorough" { 6 } else { 4 };
     let mut level: Vec<Vec<u8>> = al.iter().map(|&c| vec![c]).collect();
     for _l in 2..=maxl {
         let mut next = vec![];
@@ -581,11 +583,22 @@ fn c15_universe(tier: &str) -> Vec<Vec<u8>> {
         }
         level = next;
     }
+    if tier == "thorough" {
+        // all strings of length 3 over a 24-symbol alphabet (every escape class, digits and hex letters after \0 and \x)
+        let al2: [u8; 24] = [0x00, 0x01, 0x07, 0x08, b'\t', b'\n', 0x0b, b'\r', 0x1b, 0x1f, b' ', b'"', b'\'', b'0', b'7', b'9', b'A', b'\\', b'a', b'f', b'x', 0x7e, 0x7f, 0xff];
+        for &a in &al2 {
+            for &b in &al2 {
+                for &c in &al2 {
+                    v.push(vec![a, b, c]);
+                }
+            }
+        }
+    }
     v
 }
 
-pub fn run_c15(tier: &str, parity_odd: bool, rep: &mut Report) {
-    let uni = c15_universe(tier);
+pub fn run_c15(tier: &str, parity_odd: bool, shard: usize, nshards: usize, rep: &mut Report) {
+    let uni: Vec<Vec<u8>> = c15_universe(tier).into_iter().enumerate().filter(|(i, _)| i % nshards == shard).map(|(_, x)| x).collect();
     let mut distinct_outputs: BTreeSet<u64> = BTreeSet::new();
     let mut escapes_seen: BTreeSet<String> = BTreeSet::new();
     for (i, x) in uni.iter().enumerate() {
